@@ -101,6 +101,12 @@ func main() {
 			normNotes = append(append(normNotes, n1...), n2...)
 		}
 	}
+	if d := os.Getenv("VCHECK_DUMP_OVERLAY"); d != "" {
+		for name, b := range ov {
+			_ = os.MkdirAll(d, 0o755)
+			_ = os.WriteFile(filepath.Join(d, strings.ReplaceAll(strings.TrimPrefix(name, abs+"/"), "/", "__")), b, 0o644)
+		}
+	}
 	p, err := core.Load(abs, ov, *goarch)
 	if err != nil {
 		fmt.Fprintf(os.Stderr, "CHECKER-ERROR property=%s load failed: %v\n", *prop, err)
